@@ -34,6 +34,40 @@ def formatter_term_map(ctx):
     return it, out
 
 
+def a_count_parser(ctx):
+    """enum parser: the number of parsed floats selects the constructor of the same arity, floats in order"""
+    ctx.rule("A-COUNT", "the number of parsed floats selects the constructor of the same arity, with the floats in order; the formatter "
+             "writes exactly the variant's fields in order")
+    for fname, adtp, names in (("consume_truth", "enum_narsese::sentence::truth::Truth", ["new_empty", "new_single", "new_double"]),
+                               ("consume_budget", "enum_narsese::task::budget::Budget", ["new_empty", "new_single", "new_double", "new_triple"])):
+        it2 = maps.enum_parser_fn(ctx, fname)
+        ms = [n for n in hir.walk(it2["body"]) if n.get("k") == "Match" and field_path(n["scrut"]) == ("num",)]
+        if len(ms) != 1:
+            ctx.unrecognised("A-COUNT", fname, "no `match num` found")
+            continue
+        # names of the float bindings, in order, from the destructuring let
+        lets = [s for s in hir.walk(it2["body"]) if s.get("k") == "Let" and s["pat"]["k"] == "Tuple"]
+        order = []
+        if lets:
+            sl = lets[0]["pat"]["pats"][0]
+            if sl["k"] == "Slice":
+                order = [x.get("name") for x in sl["before"]]
+        seen = {}
+        for v, arm, pat in hir.arms_by_variant(ms[0]):
+            b = strip(arm["body"])
+            nm = callee_name(b) if b["k"] in ("Call", "MethodCall") else None
+            args = [field_path(a) for a in (b.get("args") or [])]
+            seen[v] = (nm, args)
+        for k, want in enumerate(names):
+            key = k if k in seen else "_"
+            nm, args = seen.get(key, (None, None))
+            if k == len(names) - 1 and k not in seen:
+                key = "_"
+                nm, args = seen.get("_", (None, None))
+            ok = nm == want and args == [(x,) for x in order[:k]]
+            ctx.ob("A-COUNT", "%s count %d -> %s" % (fname, k, want), ok, "count %s selects %s(%s); float bindings %s" % (key, nm, args, order))
+
+
 def run(ctx):
     f = ctx.facts
     T = tables.Tables(ctx)
@@ -155,36 +189,7 @@ def run(ctx):
            any("Eternal" in d for d in dflt) and any("new_empty" in d for d in dflt), "defaults: %s" % dflt)
 
     # ---- A-COUNT -------------------------------------------------------------
-    ctx.rule("A-COUNT", "the number of parsed floats selects the constructor of the same arity, with the floats in order; the formatter "
-             "writes exactly the variant's fields in order")
-    for fname, adtp, names in (("consume_truth", "enum_narsese::sentence::truth::Truth", ["new_empty", "new_single", "new_double"]),
-                               ("consume_budget", "enum_narsese::task::budget::Budget", ["new_empty", "new_single", "new_double", "new_triple"])):
-        it2 = maps.enum_parser_fn(ctx, fname)
-        ms = [n for n in hir.walk(it2["body"]) if n.get("k") == "Match" and field_path(n["scrut"]) == ("num",)]
-        if len(ms) != 1:
-            ctx.unrecognised("A-COUNT", fname, "no `match num` found")
-            continue
-        # names of the float bindings, in order, from the destructuring let
-        lets = [s for s in hir.walk(it2["body"]) if s.get("k") == "Let" and s["pat"]["k"] == "Tuple"]
-        order = []
-        if lets:
-            sl = lets[0]["pat"]["pats"][0]
-            if sl["k"] == "Slice":
-                order = [x.get("name") for x in sl["before"]]
-        seen = {}
-        for v, arm, pat in hir.arms_by_variant(ms[0]):
-            b = strip(arm["body"])
-            nm = callee_name(b) if b["k"] in ("Call", "MethodCall") else None
-            args = [field_path(a) for a in (b.get("args") or [])]
-            seen[v] = (nm, args)
-        for k, want in enumerate(names):
-            key = k if k in seen else "_"
-            nm, args = seen.get(key, (None, None))
-            if k == len(names) - 1 and k not in seen:
-                key = "_"
-                nm, args = seen.get("_", (None, None))
-            ok = nm == want and args == [(x,) for x in order[:k]]
-            ctx.ob("A-COUNT", "%s count %d -> %s" % (fname, k, want), ok, "count %s selects %s(%s); float bindings %s" % (key, nm, args, order))
+    a_count_parser(ctx)
     for fname, adtp in (("_format_truth", "Truth"), ("_format_budget", "Budget")):
         it2 = fmt_fn(ctx, fname)
         m2 = hir.top_match(it2)
